@@ -277,7 +277,15 @@ def lossless_variants(pop):
     for c in pop.columns:
         if types.get(c) is float and (v4[c] == v4[c].round()).all():
             v4[c] = v4[c].astype(int)
-    return [("int columns given as whole-number floats", v1), ("bool columns given as 0/1 ints", v2), ("bool columns given as 0.0/1.0 floats", v3), ("whole-number float columns given as ints", v4)]
+    out = [("int columns given as whole-number floats", v1), ("bool columns given as 0/1 ints", v2), ("bool columns given as 0.0/1.0 floats", v3), ("whole-number float columns given as ints", v4)]
+    # one converted column at a time: every single conversion is announced, too
+    for c, ty in (("alter", float), ("kind", int), ("bruttolohn_m", int)):
+        if c in pop.columns and (ty is not int or (pop[c] == pop[c].round()).all()):
+            v = pop.copy()
+            v[c] = v[c].astype(ty)
+            if str(v[c].dtype) != str(pop[c].dtype):
+                out.append((f"only column {c} given as {ty.__name__}", v))
+    return out
 
 
 def run(tier="quick", seed=0, jobs=16):
@@ -361,7 +369,7 @@ def run(tier="quick", seed=0, jobs=16):
                 changed = any(str(data[c].dtype) != str(pop[c].dtype) for c in pop.columns)
                 if changed and not any("converted" in str(x.message) for x in w):
                     bad.append({"what": f"{d}: automatic type conversion not announced by a warning ({desc})"})
-    rep.bounded["fault_enumeration"] = {"evaluations": n_eval, "distinct_nontrivial": len(distinct), "rule": "fault classes x every eligible row/column of the base populations (+ sampled pairs) -> must raise; four lossless dtype variants -> identical results + warning; conversion function on adversarial magnitudes; sn_id_numpy on all couples <= 4 rows, all orders and flag vectors", "failures": [a["what"] for a in accepted][:6] + [b["what"] for b in bad][:4] + cbad[:4]}
+    rep.bounded["fault_enumeration"] = {"evaluations": n_eval, "distinct_nontrivial": len(distinct), "rule": "fault classes x every eligible row/column of the base populations (+ sampled pairs) -> must raise; four lossless dtype variants of all columns and single-column variants -> identical results + warning; conversion function on adversarial magnitudes; sn_id_numpy on all couples <= 4 rows, all orders and flag vectors", "failures": [a["what"] for a in accepted][:6] + [b["what"] for b in bad][:4] + cbad[:4]}
     seen = set()
     for a in accepted:
         key = "accepted:" + a["fault"].split(" (row")[0].split(" of row")[0]
